@@ -235,7 +235,8 @@ CHECKS["C19"] = dict(
     level_text="After every event no node has lost or regressed an update, holds only updates some node made, and garbage (truncated, bit-flipped, unknown key, empty, malformed part inside a full state) changes nothing and does not block the valid parts; in the closing phase every fresh update (small by gossip, oversized by reliable send) reaches every connected node without push/pull, and after push/pull every node - including a late joiner - holds everything.",
     level_note="memberlist is replaced by the harness in this part: Peer.AddState's closures are restated in harness/cluster/busnode.go (send is identical; peers/sendOversize are injected). The mesh part (C08/C19-mesh) runs the real memberlist and the real AddState.",
     assumptions=E1_ASSUME,
-    units=[dict(pkg="app", test="TestVerifC19Bus", shards_quick=16, shards_thorough=16, budget_quick=100, budget_thorough=1500)],
+    units=[dict(pkg="app", test="TestVerifC19Bus", shards_quick=8, shards_thorough=16, budget_quick=100, budget_thorough=1500),
+           dict(pkg="app", test="TestVerifC19Mesh", shards_quick=8, shards_thorough=16, budget_quick=100, budget_thorough=1500)],
 )
 
 CHECKS["C08"] = dict(
